@@ -235,3 +235,143 @@ func isCallNamed(v ssa.Value, name string) bool {
 	c, ok := v.(*ssa.Call)
 	return ok && c.Call.StaticCallee() != nil && c.Call.StaticCallee().Name() == name
 }
+
+// errValueOfType: the error value v is, on every path, a value of the named type typ (qualified name): a
+// MakeInterface of that type, or the result of a module function (an error constructor) all of whose returns are.
+func errValueOfType(v ssa.Value, typ string, depth int) bool {
+	if depth > 3 {
+		return false
+	}
+	switch x := v.(type) {
+	case *ssa.MakeInterface:
+		return namedTypeQual(x.X.Type()) == typ
+	case *ssa.Phi:
+		for _, e := range x.Edges {
+			if !errValueOfType(e, typ, depth+1) {
+				return false
+			}
+		}
+		return len(x.Edges) > 0
+	case *ssa.Call:
+		cal := x.Call.StaticCallee()
+		if cal == nil || !core.InModule(cal) || len(cal.Blocks) == 0 {
+			return false
+		}
+		n := 0
+		for _, b := range cal.Blocks {
+			for _, in := range b.Instrs {
+				if ret, ok := in.(*ssa.Return); ok && len(ret.Results) >= 1 {
+					n++
+					if !errValueOfType(ret.Results[len(ret.Results)-1], typ, depth+1) {
+						return false
+					}
+				}
+			}
+		}
+		return n > 0
+	}
+	return false
+}
+
+// capturedValue resolves a value a function literal reads from a captured variable (a load of a free variable)
+// to the one value the enclosing function stores in that variable; ok is false for anything else.
+func capturedValue(v ssa.Value) (ssa.Value, bool) {
+	ld, ok := v.(*ssa.UnOp)
+	if !ok || ld.Op != token.MUL {
+		return nil, false
+	}
+	fv, ok := ld.X.(*ssa.FreeVar)
+	if !ok {
+		return nil, false
+	}
+	fn := fv.Parent()
+	parent := fn.Parent()
+	if parent == nil {
+		return nil, false
+	}
+	idx := -1
+	for i, f := range fn.FreeVars {
+		if f == fv {
+			idx = i
+		}
+	}
+	for _, b := range parent.Blocks {
+		for _, in := range b.Instrs {
+			mc, isMC := in.(*ssa.MakeClosure)
+			if !isMC || mc.Fn != ssa.Value(fn) || idx < 0 || idx >= len(mc.Bindings) {
+				continue
+			}
+			cell, isA := mc.Bindings[idx].(*ssa.Alloc)
+			if !isA || cell.Referrers() == nil {
+				return nil, false
+			}
+			var val ssa.Value
+			n := 0
+			for _, rf := range *cell.Referrers() {
+				if st, isSt := rf.(*ssa.Store); isSt && st.Addr == ssa.Value(cell) {
+					val = st.Val
+					n++
+				}
+			}
+			if n == 1 && !closureWrites(cell) {
+				return val, true
+			}
+			return nil, false
+		}
+	}
+	return nil, false
+}
+
+// unspill looks through a parameter spilled to a heap cell because a function literal captures it: a load of a
+// local cell whose only store is a parameter of the function stands for that parameter.
+func unspill(v ssa.Value) ssa.Value {
+	ld, ok := v.(*ssa.UnOp)
+	if !ok || ld.Op != token.MUL {
+		return v
+	}
+	cell, ok := ld.X.(*ssa.Alloc)
+	if !ok || cell.Referrers() == nil {
+		return v
+	}
+	var val ssa.Value
+	n := 0
+	for _, rf := range *cell.Referrers() {
+		if st, isSt := rf.(*ssa.Store); isSt && st.Addr == ssa.Value(cell) {
+			val = st.Val
+			n++
+		}
+	}
+	if prm, isP := val.(*ssa.Parameter); isP && n == 1 && !closureWrites(cell) {
+		return prm
+	}
+	return v
+}
+
+// closureWrites reports whether a function literal capturing the cell stores to it (or hands its address on).
+func closureWrites(cell *ssa.Alloc) bool {
+	if cell.Referrers() == nil {
+		return false
+	}
+	for _, rf := range *cell.Referrers() {
+		mc, ok := rf.(*ssa.MakeClosure)
+		if !ok {
+			continue
+		}
+		fn, _ := mc.Fn.(*ssa.Function)
+		if fn == nil {
+			return true
+		}
+		for i, b := range mc.Bindings {
+			if b != ssa.Value(cell) || i >= len(fn.FreeVars) || fn.FreeVars[i].Referrers() == nil {
+				continue
+			}
+			for _, u := range *fn.FreeVars[i].Referrers() {
+				if ld, isLd := u.(*ssa.UnOp); isLd && ld.Op == token.MUL {
+					continue
+				}
+				return true
+			}
+		}
+	}
+	return false
+}
